@@ -425,3 +425,6 @@ func (r *Run) broken() bool {
 	}
 	return false
 }
+
+// at makes provenance queries path-aware for the path being examined.
+func (r *Run) at(path *Path) { r.P.SetPath(path) }
